@@ -16,6 +16,7 @@ CheckOf(e) ==
     [] e.e = "Done" -> DoneCheck(e.c, e.kind, e.ok = 1, e.t)
     [] e.e = "Changed" -> ChangedCheck(e.c, e.t)
     [] e.e = "SrvRecv" -> SrvRecvCheck(e.conn, e.c, e.tag, e.argOk = 1, e.methodOk = 1, e.t)
+    [] e.e = "Wire" -> WireCheck(e.conn, e.c, e.tag, e.t)
     [] e.e = "Discard" -> DiscardCheck(e.conn, e.tag, e.t)
     [] e.e = "ConnClosed" -> ConnClosedCheck(e.conn, e.t)
     [] e.e = "Quiet" -> QuietCheck(e.t)
@@ -27,6 +28,7 @@ UpdOf(e) ==
     [] e.e = "Done" -> DoneUpd(e.c, e.kind, e.ok = 1, e.t)
     [] e.e = "Changed" -> ChangedUpd(e.c, e.t)
     [] e.e = "SrvRecv" -> SrvRecvUpd(e.conn, e.c, e.tag, e.argOk = 1, e.methodOk = 1, e.t)
+    [] e.e = "Wire" -> WireUpd(e.conn, e.c, e.tag, e.t)
     [] e.e = "Discard" -> DiscardUpd(e.conn, e.tag, e.t)
     [] e.e = "ConnClosed" -> ConnClosedUpd(e.conn, e.t)
     [] e.e = "Quiet" -> QuietUpd(e.t)
